@@ -38,5 +38,50 @@ def judge(pre, op, out, ctx):
                             'PushedStreamReceived'), 'server-reports-response', F.op_label(op))
 
 
+def h_repromise():
+    """a pushed stream has run its course (promised, answered, ended, forgotten); whatever
+    the peer does next with PUSH_PROMISE - on a parent we have reset or on a live one, naming
+    lower, equal or higher ids - no stream id is ever reported as pushed twice, and no events
+    appear again for the stream that ended"""
+    from engine import ops, h2h
+    from engine.core import sym_choice
+
+    def h():
+        with h2h.native():
+            ctx = ops.Ctx(True)
+            for o in (('send_headers', 1, 'req', False), ('send_headers', 3, 'req', False),
+                      ('PP', 3, 4), ('HEADERS', 4, 'resp', True), ('open_counts',),
+                      ('reset', 1)):
+                ops.run_op(ctx, o)
+            ctx.me.data_to_send()
+        promised = {4}
+        for i in range(2):
+            parent = sym_choice('parent%d' % i, [1, 3])
+            pid = sym_choice('promised%d' % i, [2, 4, 6])
+            out = ops.run_op(ctx, ('PP', parent, pid), symbolic=True)
+            note(out.cls[0])
+            if out.exc is not None:
+                return
+            for g in out.grammar:
+                check(False, 'grammar:' + g, ('PP', parent, pid))
+            for e in out.events:
+                if type(e).__name__ == 'PushedStreamReceived':
+                    check(e.pushed_stream_id not in promised and
+                          e.pushed_stream_id > max(promised),
+                          'stream-id-promised-twice-or-out-of-order',
+                          (e.pushed_stream_id, sorted(promised)))
+                    promised.add(e.pushed_stream_id)
+            if out.cls[0] == 'stream_error':
+                promised.add(pid)          # a refused promise has used its id as well
+        out = ops.run_op(ctx, ('HEADERS', 4, 'resp', True), symbolic=True)
+        if out.exc is None:
+            check(len(out.events) == 0, 'events-for-ended-pushed-stream',
+                  [type(e).__name__ for e in out.events])
+    return h
+
+
 def shards(tier, seed):
-    return F.standard_shards(tier, seed, judge, alpha_filter=lambda o: o[0].isupper())
+    from engine.runner import Shard
+    out = F.standard_shards(tier, seed, judge, alpha_filter=lambda o: o[0].isupper())
+    out.append(Shard('repromise/client', h_repromise(), budget=150, twin=False))
+    return out
